@@ -23,6 +23,7 @@ struct Profile {
   int p_conv = 40;              // percent: conversions inside SIX/X transactions
   int p_setver = 30;
   int setver_fresh = 70;        // percent of SETVER values that are fresh (never republished)
+  int p_republish = 5;          // percent of SETVER ops that republish the version current at acquisition
   int p_initver = 30;
   int p_late_start = 10;        // percent of threads that start after another one's body/exit
   // schedule styles (weights)
@@ -72,6 +73,11 @@ profile_of(const std::string &p)
     f.min_thr = 1;
     f.max_thr = 3;
   } else if (p == "C08") {
+    f.p_republish = 35;
+    f.p_setver = 45;
+    f.w_opttry = 5;
+    f.w_prep = 3;
+    f.p_prep_scn = 12;
     f.w_juggle = 0;
     f.p_juggle_inside = 3;
     f.p_casfail = 20;
@@ -232,7 +238,13 @@ struct Builder {
       juggle(kX, jx);
     }
     if (cls == kOpt) {
-      if (chance(f.p_setver)) emit(SETVER, jx, 0, 0, setver_value());
+      if (chance(f.p_setver)) {
+        if (chance(f.p_republish)) {
+          emit(SETVER, jx, 0, 1, 0);
+        } else {
+          emit(SETVER, jx, 0, 0, setver_value());
+        }
+      }
       if (chance(25)) emit(XVER, jx);
       if (chance(10)) emit(SETVER, jx, 0, 0, setver_value());
     }
